@@ -9,7 +9,7 @@ DEFAULT_STUBS = [
     "regexp", "mvdan.cc/xurls/v2",
 ]
 STATS = Z + "/internal/pkg/stats"
-DEFAULT_INIT = ["io", "errors"]
+DEFAULT_INIT = ["io", "errors", "unicode/utf8"]
 DEFAULT_MODELS = {
     "github.com/CorentinB/warc.NewWARCWritingHTTPClient": Z + "/internal/verifmodel.NewWARCWritingHTTPClient",
     "(*github.com/CorentinB/warc.CustomHTTPClient).Close": Z + "/internal/verifmodel.WarcClientClose",
@@ -135,6 +135,7 @@ PROPS["C12"] = {
         {"pkg": RX, "func": "VerifH_C12_accounting3", "replay_tries": 40, "covers": ["delivered", "feedback", "finish", "feedback-unknown", "insert-blocks-when-full"]},
         {"pkg": RX, "func": "VerifH_C12_freeze3", "replay_tries": 40, "covers": ["insert-after-freeze", "drained-after-freeze"]},
         {"pkg": RX, "func": "VerifH_C12_stop", "replay_tries": 40, "covers": ["stopped"]},
+        {"pkg": RX, "func": "VerifH_C12_waiting_insert", "replay_tries": 10, "covers": ["waiting-insert-frozen", "waiting-insert-admitted"]},
         {"pkg": RX, "func": "VerifH_C12_accounting4", "replay_tries": 40, "thorough_only": True, "opts": {"max_wall_s": 1500}, "covers": ["delivered", "feedback", "finish"]},
     ],
 }
@@ -212,12 +213,14 @@ PROPS["C19"] = {
     "outside": "JSON/XML/M3U8 tokenisation (encoding/json, encoding/xml, grafov/m3u8 are modelled as delivering the value the harness built; natively the replay goes through the real decoders); the XML/sitemap extractor; multi-page bucket walks",
     "assumptions": COMMON_ASSUME + ["strings.Split/Trim/... are replaced by plain-Go models validated against the real functions on all strings <=5 over a 4-letter alphabet (verifmodel self-test)",
                                     "json.Decoder.Decode / json.Unmarshal / m3u8.DecodeFrom return the harness-built value (contract: total, no panic)"],
+    "init_pkgs": DEFAULT_INIT + ["encoding/xml", "bufio", "bytes"],
     "harnesses": [
         {"pkg": EX, "func": "VerifH_C19_extension", "covers": ["has-extension", "no-extension"]},
         {"pkg": EX, "func": "VerifH_C19_json_depth2", "opts": {"max_steps": 20000000}, "covers": ["json-in-string", "several-urls"]},
         {"pkg": EX, "func": "VerifH_C19_json_depth3", "opts": {"max_steps": 20000000, "max_wall_s": 1500}, "thorough_only": True, "covers": ["json-in-string", "several-urls"]},
         {"pkg": EX, "func": "VerifH_C19_s3_legacy", "covers": ["object-linked", "next-page"]},
         {"pkg": EX, "func": "VerifH_C19_s3_v2", "covers": ["objects-and-prefixes", "prefix-linked", "continuation"]},
+        {"pkg": EX, "func": "VerifH_C19_xml", "opts": {"max_steps": 50000000, "unwind": 100000, "map_order_all": False}, "covers": ["xml-url-planted", "xml-asset", "xml-outlink", "xml-several"]},
         {"pkg": EX, "func": "VerifH_C19_m3u8", "covers": ["media", "master", "alternative"]},
     ],
 }
@@ -231,10 +234,12 @@ PROPS["C10"] = {
     "outside": "panics or hangs INSIDE third-party decoders (x/net/html, encoding/json, encoding/xml, grafov/m3u8, pdfcpu, goada): those code bases are not encoded, the decoders are total stubs; HTML, XML, PDF, sitespecific extractors; URL normalisation; body processing",
     "assumptions": COMMON_ASSUME + ["library decoders return or fail (no panic) - the claim is about Zeno's code given such decoders",
                                     "strings.* models validated differentially (verifmodel self-test)"],
+    "init_pkgs": DEFAULT_INIT + ["encoding/xml", "bufio", "bytes"],
     "harnesses": [
         {"pkg": EX, "func": "VerifH_C10_link_header", "covers": ["parsed", "two-links", "simple-link"]},
         {"pkg": EX, "func": "VerifH_C10_attr", "covers": ["no-equals", "key-value"]},
         {"pkg": EX, "func": "VerifH_C10_json_shapes", "covers": ["walked"]},
+        {"pkg": EX, "func": "VerifH_C10_xml_truncated", "opts": {"max_steps": 50000000, "unwind": 100000, "map_order_all": False}, "covers": ["xml-cut", "xml-whole", "xml-error"]},
         {"pkg": EX, "func": "VerifH_C19_m3u8", "covers": ["media", "master"]},
         {"pkg": EX, "func": "VerifH_C19_extension", "covers": ["has-extension"]},
         {"pkg": EX, "func": "VerifH_C19_s3_legacy", "covers": ["object-linked"]},
@@ -422,7 +427,7 @@ C16_MODELS = dict(PIPE_MODELS)
 PROPS["C16"] = {
     "technique": 'symbolic execution / schedule exploration of go/ssa (SMT for usage counts and statuses)',
     "level": "model_checking",
-    "explanation": "the per-seed resource discipline, as step obligations so that 'N vs 4N seeds' follows by induction: every response body obtained by archive() is closed on every path (C02 harness); after postprocessItem the item holds no body and the body is closed; "
+    "explanation": "the per-seed resource discipline, as step obligations so that 'N vs 4N seeds' follows by induction: every response body obtained by archive() is closed on every path and a spooled temp file is either handed to the item or closed - natively: removed from the temp dir - on every ProcessBody path (C02 harnesses); after postprocessItem the item holds no body and the body is closed; "
                    "closeBodies leaves no node of the tree holding a body (all depths, all statuses); the per-host limiter table never exceeds maxBuckets for any arrival order and usage counts (all map iteration orders); "
                    "at the end of a seed's life the reactor tracks nothing and all tokens are free (C01/C12 harnesses).",
     "bounds": "trees of <=3 levels / <=2 children; limiter: maxBuckets 1-2, <=2 pre-existing hosts with usage 1..1000, 2 arrivals from 3 hosts; plus the bounds of the C01, C02, C06 and C12 harnesses it reuses",
@@ -434,6 +439,7 @@ PROPS["C16"] = {
         {"pkg": PP, "func": "VerifH_C16_close_bodies", "covers": ["three-levels", "body-closed"]},
         {"pkg": RL, "func": "VerifH_C16_bucket_bound", "opts": {"abstract_time": True}, "covers": ["table-full"]},
         {"pkg": AR, "func": "VerifH_C02_archive", "models": ARCH_MODELS, "opts": {"max_steps": 50000000, "unwind": 70000}, "covers": ["archived", "retries-exhausted"]},
+        {"pkg": AR, "func": "VerifH_C02_process_body", "models": ARCH_MODELS, "opts": {"max_steps": 50000000, "unwind": 70000}, "covers": ["body-error", "spooled"]},
         {"pkg": PP, "func": "VerifH_C06_postprocess", "models": POSTPROC_MODELS, "opts": {"map_order_all": False}, "covers": ["body-released"]},
         {"pkg": "internal/verifpipe", "func": "VerifH_C01_one_seed", "replay_tries": 2, "opts": {"max_steps": 50000000, "unwind": 70000, "map_order_all": False, "no_preempt": True}, "covers": ["finished"]},
     ],
@@ -444,12 +450,18 @@ PROPS["C07"] = {
     "level": "model_checking",
     "explanation": "the real HTMLAssets/HTMLOutlinks/extractBaseTag/resolveURL code and the real goquery/cascadia selector engine run from SSA on DOM trees built node by node (which elements and attributes are present is chosen symbolically); "
                    "expected assets/outlinks come from the attribute table of the statement; natively the same DOM is rendered to text and parsed by the real x/net/html parser.",
-    "bounds": "per page at most one each of img (src absolute / src relative / srcset with two candidates), script src (relative), link href (stylesheet / alternate), video|audio|source src, a href (dot-segment relative); disable-html-tag in {none,img,script,link}; capture-alternate-pages on/off",
+    "bounds": "per page at most one each of img (src absolute / src relative / srcset with two candidates), script src (relative), link href (stylesheet / alternate), video src, audio src, source src / srcset (media harness: any combination), a href (dot-segment relative); disable-html-tag in {none, img, script, link, video, audio, source, a, img+audio, video+source}; capture-alternate-pages on/off",
     "outside": "url(...) in style elements/attributes and script-text sniffing (regular expressions are opaque in the engine); real-world HTML parsing quirks (only the native replay goes through the parser); browser-conformant resolution beyond net/url.ResolveReference; base elements",
     "assumptions": COMMON_ASSUME + ["regexp objects are opaque: regex-derived assets are neither demanded nor excluded"],
     "stub_pkgs": DEFAULT_STUBS + [STATS],
+    "benign_zero_globals": {
+        "golang.org/x/net/html.voidElements": "only read by html.Render (goquery.OuterHtml of script elements), whose output goes to opaque regular expressions only",
+        "golang.org/x/net/html.plaintextAbort": "same",
+    },
     "harnesses": [
         {"pkg": EX, "func": "VerifH_C07_attributes", "opts": {"max_steps": 50000000, "unwind": 100000, "map_order_all": False},
-         "covers": ["asset-expected", "srcset", "relative-script", "alternate", "tag-disabled", "anchor"]},
+         "covers": ["asset-expected", "srcset", "relative-script", "alternate", "tag-disabled", "anchor", "anchor-disabled"]},
+        {"pkg": EX, "func": "VerifH_C07_media", "opts": {"max_steps": 50000000, "unwind": 100000, "map_order_all": False},
+         "covers": ["asset-expected", "audio", "source-srcset", "tag-disabled", "anchor"]},
     ],
 }
